@@ -389,7 +389,7 @@ Inductive rstep : Type :=
 | RDeslice1.
 
 (* typer.rs:2621 Reference::autoderef, the loop over (current_type, next source
-   step); fuel = MAX_NUM_AUTODEREF_STEPS = 254 iterations.  Returns the resolved
+   step); fuel = MAX_NUM_AUTODEREF_STEPS = 127 * 128 + 127 iterations (254 before D61 was repaired).  Returns the resolved
    steps and the type reached, None when the Rust code panics ("failed to
    autoderef") or the fuel runs out with steps left (the Rust loop then drops
    the remaining steps silently). *)
@@ -456,7 +456,7 @@ Fixpoint elaborate_fuel (fuel : nat) (t : pty) (p : path) : option (list rstep *
       end
   end.
 
-Definition MAX_NUM_AUTODEREF_STEPS : nat := 254.
+Definition MAX_NUM_AUTODEREF_STEPS : nat := 127 * 128 + 127.
 
 Definition elaborate (t : pty) (p : path) : option (list rstep * pty) :=
   elaborate_fuel MAX_NUM_AUTODEREF_STEPS t p.
